@@ -110,6 +110,19 @@ func (d *duplexHTTPCall) Write(data []byte) (int, error) {
 		d.SetError(err)
 		return 0, wrapIfContextError(err)
 	}
+	select {
+	case <-d.responseReady:
+		if d.response != nil && d.response.ProtoMajor < 2 {
+			// HTTP/1.x is request-then-response: a server that has answered is done
+			// with the request. net/http's transport doesn't say so (it keeps
+			// uploading), and its server closes the connection if the upload goes
+			// on for long - which costs us whatever part of the answer we haven't
+			// read yet. Tell the caller that the stream is over, as the HTTP/2
+			// transport does by closing the request body.
+			return 0, io.EOF
+		}
+	default:
+	}
 	// It's safe to write to this side of the pipe while net/http concurrently
 	// reads from the other side.
 	verifYield(d.ctx, "write.pipe")
